@@ -124,7 +124,8 @@ def _evaluate(ctx, d, inp, record=True):
     # intensity scale of the target (the normalised scores must not care; the guards of the code are absolute thresholds)
     tscale = float(inp.get("tscale", 1.0))
     itarget = target                      # unscaled: decides which windows are exactly constant
-    target = target * tscale
+    target = target * tscale + float(inp.get("toffset", 0.0))
+    ttb = itarget + float(inp.get("toffset", 0.0))      # for the (scale-invariant) textbook oracles: offset kept, scale dropped
     S.set_precision(double)
     try:
         dtype = np.float64 if double else np.float32
@@ -227,20 +228,20 @@ def _evaluate(ctx, d, inp, record=True):
     binary = bool(np.all((wm == 0) | (wm == 1))) and not smoothed
     if score in ("CORR", "CAM") and bool(np.all(wm == 1)):
         # CAM: the *standardised* target is what gets zero-extended
-        tsrc = (itarget - itarget.mean()) / itarget.std() if score == "CAM" else itarget
+        tsrc = (ttb - ttb.mean()) / ttb.std() if score == "CAM" else ttb
         tb, st2 = S.pearson_textbook(tsrc, gR, np.ones(ms))
         p2 = part & st2
         dt = float(np.max(np.abs(sc - tb)[p2])) if p2.any() else 0.0
         detail["max|impl-Pearson|"] = dt
         good &= dt <= tol
     if score == "FLC" and binary:
-        tb, st2 = S.pearson_textbook(itarget, gR, wR)
+        tb, st2 = S.pearson_textbook(ttb, gR, wR)
         p2 = part & st2
         dt = float(np.max(np.abs(sc - tb)[p2])) if p2.any() else 0.0
         detail["max|impl-maskedPearson|"] = dt
         good &= dt <= tol
     if score == "FLCSphericalMask" and binary:
-        tb, st2 = S.pearson_textbook(itarget, gR, wm)
+        tb, st2 = S.pearson_textbook(ttb, gR, wm)
         p2 = part & st2
         dt = float(np.max(np.abs(sc - tb)[p2])) if p2.any() else 0.0
         detail["max|impl-maskedPearson|"] = dt
@@ -321,7 +322,11 @@ def run(ctx):
         if score == "MCC":
             score = "CC"
         nd = 2 if i % 3 else 3
-        inp, sig = _case(ctx, d, rng, nd, score, bool(i % 2), False, 3, "full", True)
+        # (double precision is selected through the backend's arguments, not its name: the workers must honour it too)
+        inp, sig = _case(ctx, d, rng, nd, score, bool(i % 2), bool(i % 2 == 0), 3, "full", True)
+        if inp["double"] and score in ("FLC", "FLCSphericalMask", "CORR", "CAM"):
+            inp["tscale"] = 1.0
+            inp["toffset"] = 1000.0        # float32 cannot resolve the windows' variance at this offset, float64 can
         pre = rng.integers(-4, 5, size=inp["ms"])
         if pre.std() == 0:
             pre.flat[0] += 1
